@@ -424,7 +424,8 @@ func (tk *tokenizer) consumeUrl(pos Pos) (Token, Token) {
 			default:
 				tk.pos += w
 				// http://drafts.csswg.org/csswg/css-syntax/#non-printable-character
-				if strings.ContainsRune(nonPrintable, c) {
+				// (a backslash here is an invalid escape)
+				if c == '\\' || strings.ContainsRune(nonPrintable, c) {
 					goto badURL
 				}
 			}
@@ -451,8 +452,10 @@ func (tk *tokenizer) consumeUrl(pos Pos) (Token, Token) {
 badURL:
 	// http://drafts.csswg.org/csswg/css-syntax/#consume-the-remnants-of-a-bad-url0
 	for tk.pos < L {
-		if bytes.HasPrefix(tk.src[tk.pos:], []byte("\\)")) {
-			tk.pos += 2
+		if tk.src[tk.pos] == '\\' && !bytes.HasPrefix(tk.src[tk.pos:], []byte("\\\n")) {
+			// Valid escape: an escaped ")" does not end the token
+			tk.pos += 1
+			tk.consumeEscape()
 		} else if tk.src[tk.pos] == ')' {
 			tk.pos += 1
 			break
